@@ -32,6 +32,19 @@ def run_stage(ctx, name, runs=300000, max_len=256):
                "-runs=%d" % runs, "-seed=%d" % seed, "-max_len=%d" % max_len, "-print_final_stats=0",
                "-artifact_prefix=%s/" % work]
         os.makedirs(os.path.join(work, "corpus"))
+        # starting corpus: besides the empty input libFuzzer always tries, a few deterministic pseudo-random blobs
+        # of growing length, so that Hypothesis-in-the-loop targets (which need hundreds of choice bytes for one
+        # structured case) start from complete cases instead of overruns
+        import hashlib
+        for k in range(24):
+            length = 32 << (k % 8)
+            blob = b""
+            counter = 0
+            while len(blob) < length:
+                blob += hashlib.blake2b(("%s/%d/%d/%d" % (name, seed, k, counter)).encode(), digest_size=64).digest()
+                counter += 1
+            with open(os.path.join(work, "corpus", "seed%02d" % k), "wb") as fh:
+                fh.write(blob[:length])
         res = subprocess.run(cmd, env=env, capture_output=True, text=True, cwd=ROOT, timeout=7200)
         info = {}
         if os.path.exists(out):
